@@ -792,3 +792,20 @@ PROPS["C06"]["functions"].append("SystemLoanFeeReserve::repay_all (deferred exec
 PROPS["C06"]["bounds"] += ("; repay_all: one step from an arbitrary reserve state with any committed and deferred units (no "
                            "deferred storage)")
 PROPS["C06"]["outside"] = PROPS["C06"]["outside"].replace("repay_all / consume_royalty", "deferred storage in repay_all, consume_royalty")
+
+PROPS["C09"]["functions"] = ["radix_engine::blueprints::resource::WorktopBlueprint::{put, take, take_non_fungibles, take_all, "
+                             "assert_contains, assert_contains_amount, assert_contains_non_fungibles, drain} (via the verif "
+                             "dispatcher verif_worktop_invoke)"]
+PROPS["C09"]["bounds"] += ("; non-fungible operations: held id sets of <= 2 and asked id sets of <= 2 distinct symbolic ids")
+PROPS["C09"]["outside"] = PROPS["C09"]["outside"].replace("Outside: take_non_fungibles / assert_contains_non_fungibles, the Cuttlefish", "Outside: the Cuttlefish")
+PROPS["C44"]["functions"] += ["radix_common::types::Round::calculate_progress",
+                              "radix_engine_interface::blueprints::consensus_manager::EpochChangeCondition::{should_epoch_change, "
+                              "is_change_criterion_met, is_actual_duration_close_to_target}",
+                              "ConsensusManagerBlueprint::{next_round, update_proposal_statistics} (epoch_change is a recorded "
+                              "effect)"]
+PROPS["C44"]["bounds"] += ("; rounds / epochs: every pair of u64 rounds; every epoch-change condition, i64 start / current time and "
+                           "round; next_round from an arbitrary manager state (any epoch, round, stored timestamps <= 10^15 ms, "
+                           "0..2 gap leaders (3 thorough), 3 validators in the statistics)")
+PROPS["C44"]["outside"] = PROPS["C44"].get("outside", "") + ("; epoch_change itself (validator set rotation, emissions, rewards), "
+                                                              "natively the epoch-change path of next_round is not replayable "
+                                                              "(a counterexample there ends as not decided, not as a violation)")
